@@ -1,7 +1,7 @@
 import QecVerif.Model.Wire
 import QecVerif.Model.Smwpm
 namespace Qec.Drv
-open Qec Qec.Wire Qec.Smwpm
+open Qec Qec.Wire Qec.Smwpm Qec.Dec
 
 namespace SmwpmW
 
@@ -81,10 +81,10 @@ def showClusters (cls : List (List TIdx)) : String :=
 def showKind : CKind → String
   | .defective => "d" | .neutral => "n" | .corner => "c" | .extra => "e"
 
-def showCNode (n : CNode) : String :=
+def showCNode (n : ClNode) : String :=
   if n.kind = .extra then "e" else s!"{showKind n.kind}:{showT3 n.x}:{showT3 n.z}"
 
-def showCNodes (ns : List CNode) : String := if ns.isEmpty then "." else ";".intercalate (ns.map showCNode)
+def showCNodes (ns : List ClNode) : String := if ns.isEmpty then "." else ";".intercalate (ns.map showCNode)
 
 def showCEdges (es : List (Nat × Nat)) : String :=
   if es.isEmpty then "." else "|".intercalate (es.map fun e => s!"{e.1}>{e.2}")
